@@ -44,6 +44,12 @@ def grantable (ms : C02St) (B : List Nat) (w : Bool) : Bool :=
   if w then ms.holders.isEmpty
   else ms.holders.all (fun h => !h.2) && B.all (fun u => modeOf ms u != some true)
 
+/-- pending call `t` could be granted right now (a call of unknown mode counts as grantable) -/
+def pendingGrantable (ms : C02St) (B : List Nat) (t : Nat) : Bool :=
+  match modeOf ms t with
+  | some w => grantable ms B w
+  | none => true
+
 def monC02 : ObsMonitor Obs C02St where
   init := {}
   step := fun ms o =>
@@ -67,9 +73,7 @@ def monC02 : ObsMonitor Obs C02St where
     | .quiesce B =>
       -- no pending call is grantable; no cancelled call is still pending
       if B.any (fun t => ms.cancelled.contains t) then none
-      else if B.any (fun t => match modeOf ms t with
-                              | some w => grantable ms B w
-                              | none => true) then none
+      else if B.any (pendingGrantable ms B) then none
       else some { ms with waitingW := B.filter (fun t => modeOf ms t == some true) }
     | _ => some ms
 
